@@ -186,7 +186,7 @@ func (g *Gen) param0() string {
 		}
 	case 18:
 		if g.lang == "zsh" {
-			return "${#${" + g.name() + "}}"
+			return kit.Pick(g.r, []string{"${#${" + g.name() + "}}", "${#\"${" + g.name() + "}\"}", "${(f)\"$(" + g.name() + ")\"}", "${${" + g.name() + "#h}%t}", "${\"${" + g.name() + "}\"}", "${$(" + g.name() + ")}", "${(U)\"$" + g.name() + "\"}"})
 		}
 	case 19:
 		return "${" + n + "-" + w() + "}"
